@@ -371,6 +371,10 @@ class PDFStream(PDFObject):
             elif f in LITERALS_RUNLENGTH_DECODE:
                 data = rldecode(data)
             elif f in LITERALS_CCITTFAX_DECODE:
+                params = resolve1(params)
+                if not isinstance(params, dict):
+                    params = {}
+                params = {k: resolve1(v) for (k, v) in params.items()}
                 data = ccittfaxdecode(data, params)
             elif f in LITERALS_DCT_DECODE:
                 # This is probably a JPG stream
